@@ -178,12 +178,12 @@ impl Superset for syn::AngleBracketedGenericArguments {
                     None
                 }
 
-                (Lifetime(x1), Lifetime(x2)) => x1.is_superset(x2),
+                (Lifetime(x1), Lifetime(x2)) => acc.merge(x1.is_superset(x2)?),
                 (Type(x1), Type(x2)) => acc.merge(x1.is_superset(x2)?),
                 (Const(x1), Const(x2)) => acc.merge(x1.is_superset(x2)?),
-                (AssocType(x1), AssocType(x2)) => x1.is_superset(x2),
-                (AssocConst(x1), AssocConst(x2)) => x1.is_superset(x2),
-                (Constraint(x1), Constraint(x2)) => x1.is_superset(x2),
+                (AssocType(x1), AssocType(x2)) => acc.merge(x1.is_superset(x2)?),
+                (AssocConst(x1), AssocConst(x2)) => acc.merge(x1.is_superset(x2)?),
+                (Constraint(x1), Constraint(x2)) => acc.merge(x1.is_superset(x2)?),
 
                 (x1, x2) => (x1 == x2).then_some(Substitutions::default()),
             }
